@@ -5,6 +5,7 @@ package weighted_sum
 
 import (
 	. "github.com/Azbesciak/RealDecisionMaker/lib/model"
+	"github.com/Azbesciak/RealDecisionMaker/lib/model"
 )
 
 type Spec_WeightedSumBiasListener struct {
@@ -15,15 +16,9 @@ type Spec_WeightedSumAddedCriterion struct {
 	weights model.WeightedCriteria
 }
 
-type Spec_WeightedSumBiasListener struct {
-}
-
 type Spec_WeightedSumPreferenceFunc struct {
 }
 
 type Spec_weightedSumParams struct {
 	weightedCriteria *WeightedCriteria
-}
-
-type Spec_WeightedSumPreferenceFunc struct {
 }
